@@ -375,10 +375,21 @@ theorem enumerator_protocol (hash : K → Nat) (d : Desc K V) (m : LMap K V) (h 
   refine ⟨(LMap.abs_keys h).symm, h.nodup, ?_, rfl⟩
   exact (map_snd_absL (m.tab.get hash) m.order).symm
 
-/-- the protocol itself: `Next` is defined exactly when `HasMoreElements` answers true, and an exhausted
-    enumerator stays exhausted -/
-theorem enumerator_hasMore_next (e : LEnum K) : e.hasMore = e.next.isSome := by
+/-- the protocol itself: `Next` is defined exactly when `HasMoreElements` answers true; `Next` without a prior
+    `HasMoreElements` is correct too (`n` bare calls yield the first `n` remaining keys — the `Size()`-driven loops of
+    `KeyArray`, `Sort`, `ToString`); `HasMoreElements` does not change the enumerator (it is a pure test here) -/
+theorem enumerator_hasMore_next (e : LEnum K) :
+    e.hasMore = e.next.isSome ∧ (∀ n, LEnum.takeN n e = e.rest.take n) := by
+  refine ⟨?_, fun n => LEnum.takeN_eq n e⟩
   obtain ⟨r⟩ := e; cases r <;> rfl
+
+/-- `Size()` bare calls of `Next` enumerate the whole map, like the HasMoreElements-driven loop -/
+theorem enumerator_size_driven (hash : K → Nat) (d : Desc K V) (m : LMap K V) (h : LMap.Inv hash d m) :
+    LEnum.takeN m.count m.openEnum = m.order ∧ LEnum.takeN m.count m.openEnum = LEnum.drain m.count m.openEnum := by
+  have hc : m.order.length = m.count := h.count.symm
+  have h1 : LEnum.takeN m.count m.openEnum = m.order := by
+    rw [LEnum.takeN_eq]; show m.order.take m.count = m.order; rw [← hc, List.take_length]
+  exact ⟨h1, by rw [h1, LEnum.drain_eq _ _ (by show m.order.length ≤ m.count; omega)]; rfl⟩
 
 /-! ### several live containers: no aliasing -/
 
